@@ -4,7 +4,7 @@
    invariants; a step never returns a half-applied state. *)
 From Coq Require Import List ZArith Bool.
 From JSL Require Import Base.Res Base.ListX SM.Types SM.Util SM.Handler SM.Step SM.Middleware SM.Inv SM.Example SM.ExampleHang
-  SMP.Offers SMP.Main SMP.Reflect SMP.StepInv SMP.Atomic SMP.Clock SMP.ClockMain SMP.Hang SMP.LiftProv SMP.ProvBatch SMP.OffersValid SMP.NoFail.
+  SMP.Offers SMP.Main SMP.Reflect SMP.StepInv SMP.Atomic SMP.Clock SMP.ClockMain SMP.Hang SMP.LiftProv SMP.ProvBatch SMP.OffersValid SMP.NoFail SM.Events SMP.AllEvents.
 Import ListNotations.
 
 (* accepting the offered transition cannot be rejected by the transition tables *)
@@ -96,3 +96,25 @@ Proof.
   rewrite C05_refuted_step. reflexivity.
 Qed.
 Print Assumptions C05_refuted_reachable.
+
+(* what every internal transition of every step does, over whole runs of every instance: every entry (tr, y) of the micro-log of every decision
+   was applied to ONE state x1 (the micro-state before it, up to the clock) such that the complete event vector the monitors evaluate on the
+   implementation - release order at pre-buffers and for AGVs, setup, tool frame, fired exactly when due, start of processing, end of processing
+   with the sampled outages, release, pickup, delivery, AGV release, stores changed by remove-one/append-one only, clock untouched, the two
+   side conditions of C01/C04 - is true of (x1, tr, y); the dispatch clause possibly without its readiness conjunct, which is false in some runs
+   (C11_dispatch_only_to_ready_jobs_refuted). event_vector_up_to_readiness differs from SM/Events.v event_vector in that one position only. *)
+Theorem C05_every_micro_event_satisfies_the_monitor_vector_every_instance :
+  forall (sigma : oracle) (i : inst) (fuel : nat) (x0 : state) (joker0 : Z) (ta : bool) (r : result) (m : mw)
+         (a : Z) (r' : result) (m' : mw) (lg : mlog),
+    inst_nonneg_b i = true ->
+    clock_b x0 = true -> wfs_b i x0 = true -> fresh2_b i x0 = true -> nodep_b x0 = true -> pre_ok_b x0 = true ->
+    reach sigma i fuel x0 joker0 ta r m -> mw_step sigma i fuel r m a = MOk r' m' lg -> chain_vector i (r_x r) lg.
+Proof. intros sigma i fuel x0 joker0 ta r m a r' m' lg Hnn. apply (run_event_vector_ok sigma i Hnn); auto. Qed.
+Print Assumptions C05_every_micro_event_satisfies_the_monitor_vector_every_instance.
+
+Theorem C05_monitor_vector_differs_in_the_dispatch_position_only :
+  forall i x tr y, length (event_vector i x tr y) = length (event_vector_up_to_readiness i x tr y)
+    /\ forall k, k <> 7 -> nth_error (event_vector_up_to_readiness i x tr y) k = nth_error (event_vector i x tr y) k.
+Proof. exact vector_shape. Qed.
+Print Assumptions C05_monitor_vector_differs_in_the_dispatch_position_only.
+
